@@ -50,7 +50,7 @@ PROP = {
              "real AfterUndelegationStarted hook places a hold + 1 plain operator; 2-4 fresh stakers; 2 LST assets): deposit, withdraw, delegate, "
              "undelegate (amount aimed at position / position+-1 / 1 / 0 / -1 / random / primes), genesis-loaded pending undelegation with completion "
              "height = now, now+1, 16*now+k, 256*now+k (hex(now) is a proper prefix of hex(completion)), now-1 (rejected), operator slash with the "
-             "event height around now, bursts of 2-3 slashes of one operator over pending records with an exactly chosen effective proportion (0.6+0.6, 0.5+0.5, 1+0.5, 3x0.34 ...), hold increment/decrement on live record keys, native-restaking balance adjustments (UpdateNSTBalance: decreases sized to end in the withdrawable "
+             "event height around now, bursts of 2-3 slashes of one operator over pending records with an exactly chosen effective proportion (0.6+0.6, 0.5+0.5, 1+0.5, 3x0.34 ...), hold increment/decrement on live record keys, asset meta-information updates (UpdateStakingAssetMetaInfo on both LSTs, the native entry and an unregistered id), native-restaking balance adjustments (UpdateNSTBalance: decreases sized to end in the withdrawable "
              "balance / inside the pending undelegations / in the delegated shares; increases capped at earlier decreases), 1..11 delegation EndBlocks; start height from "
              "{1,2,3,9,15,16,17,255,256,4095,10^6}; nonces and tx hashes unique per case except in the directed tagged scenarios (which come first and "
              "reproduce the known findings: 3 index collisions; plus the regression scenarios of the repaired opt-out-before-activation and deep-slash-acceptance defects, an NST scenario and a native-token scenario); the prefix-scan "
